@@ -1,12 +1,12 @@
 package mon
 
 import (
-	"net"
 	"bufio"
 	"bytes"
 	"errors"
 	"fmt"
 	"io"
+	"net"
 	"net/http"
 	"net/url"
 	"sort"
